@@ -24,6 +24,8 @@ From RX.Model Require Import Base CharClass Stream Tokenizer Doc Builder Parse A
 From RX.Proofs Require Import LexerProofs NoPanicTokenizer RangeTokenizer RangeArena RangeInv RangeBuilder RangeParse RangeAttrLocal RangeAttrTok RangeAttrParse RangeShiftBase RangeShiftStream RangeShiftTokenizer RangeShiftBuilder RangeShiftParse RangeShiftFinal CstRangeDefs CstRangeMain CstRangeTDefs CstRangeTMain CstEntDoc CstRangeEDefs CstRangeEMain CstRangeEValid.
 From RX.Spec Require Cst CstText CstEnt CstFull CstFullS5.
 From RX.Proofs Require CstRangeFDefs CstRangeFS2 CstRangeGDefs CstRangeGS3 CstRangeG5Defs CstRangeG5.
+From RX.Spec Require CstFullS4 CstFullS6.
+From RX.Proofs Require CstRangeG6Defs CstRangeG6.
 Open Scope N_scope.
 
 (* ---- Proofs/RangeParse.v ---- *)
@@ -280,8 +282,52 @@ Print Assumptions C13_parse_render_attr_ranges_f5.
 
 End G9.
 
-(* ---- Proofs/RangeTokenizer.v ---- *)
+(* ---- Proofs/CstRangeG6.v ---- *)
 Module G10.
+Import RX.Spec.CstFull. Import RX.Spec.CstFullS4. Import RX.Spec.CstFullS6. Import RX.Proofs.CstRangeFDefs. Import RX.Proofs.CstRangeFS2. Import RX.Proofs.CstRangeG6Defs. Import RX.Proofs.CstRangeG6.
+Theorem C13_parse_render_ranges_f6 :
+  forall (d : S6.doc) (opt : options) doc,
+  S6.wf_doc d = true ->
+  (S6.has_dtd d = true -> allow_dtd opt = true) ->                (* a DOCTYPE needs the option *)
+  N.of_nat (length (S6.sem d)) < nodes_limit opt ->               (* room for all nodes + the Root *)
+  N.of_nat (length (S6.sem d)) < u32_max ->                        (* of the MEANING: entities add nodes *)
+  N.of_nat (S6.nattrs d) < u32_max ->                              (* the attribute rows of the meaning *)
+  S6.distinct_decls_le d (N.to_nat 65535) ->                       (* at most 65535 distinct declared bindings *)
+  1 + N.of_nat (S6.ns_cost d) <= u32_max ->                        (* the namespace table fits *)
+  parse (S6.render d) opt = Ok doc ->
+  (* every node below the Root, in document order: the span of the construct it was read from -- in the
+     document, or, for what a reference stands for, inside the literal of the entity declaration in the
+     internal subset (an element, comment or PI of a markup value: where it is written in the value; a
+     Text node: its first fragment) *)
+  map nd_range (tl (d_nodes doc)) = fspans6 d /\
+  (* the Root: the whole input, the byte order mark and the XML declaration included *)
+  (exists root, nth_N (d_nodes doc) 0 = Some root /\ nd_range root = (0, N.of_nat (length (S6.render d)))) /\
+  (* all these offsets are on character boundaries *)
+  Forall (fun r => is_boundary (S6.render d) (fst r) = true /\ is_boundary (S6.render d) (snd r) = true) (fspans6 d).
+Proof. exact parse_render_ranges_f6. Qed.
+Print Assumptions C13_parse_render_ranges_f6.
+
+Theorem C13_parse_render_attr_ranges_f6 :
+  forall (d : S6.doc) (opt : options) doc,
+  S6.wf_doc d = true -> (S6.has_dtd d = true -> allow_dtd opt = true) ->
+  N.of_nat (length (S6.sem d)) < nodes_limit opt ->
+  N.of_nat (length (S6.sem d)) < u32_max ->
+  N.of_nat (S6.nattrs d) < u32_max ->
+  S6.distinct_decls_le d (N.to_nat 65535) ->
+  1 + N.of_nat (S6.ns_cost d) <= u32_max ->
+  fattrs_small6 d ->                                           (* below the saturation limits *)
+  parse (S6.render d) opt = Ok doc ->
+  (* the attributes of all elements in the order in which they are read (those of an element of a
+     markup value once per reference, with ranges inside the literal) *)
+  map (fun a => (ad_range a, attr_range_qname a, attr_range_value a)) (d_attrs doc) =
+  map (fun s => (fa_range s, fa_qname s, Ok (fa_value s))) (fattr_spans6 d).
+Proof. exact parse_render_attr_ranges_f6. Qed.
+Print Assumptions C13_parse_render_attr_ranges_f6.
+
+End G10.
+
+(* ---- Proofs/RangeTokenizer.v ---- *)
+Module G11.
 Local Notation token := Tokenizer.token.
 Theorem C13_tokenizer_token_ranges :
   forall text (C : Type) (ev : token -> C -> res C)
@@ -293,10 +339,10 @@ Theorem C13_tokenizer_token_ranges :
 Proof. exact tokenizer_token_ranges. Qed.
 Print Assumptions C13_tokenizer_token_ranges.
 
-End G10.
+End G11.
 
 (* ---- Proofs/LexerProofs.v ---- *)
-Module G11.
+Module G12.
 Local Notation token := Tokenizer.token.
 Theorem C13_parse_comment_post :
   forall (text : bytes), forall s acc s' acc', SInv text s ->
@@ -367,7 +413,7 @@ Theorem C13_parse_close_element_post :
 Proof. exact parse_close_element_post. Qed.
 Print Assumptions C13_parse_close_element_post.
 
-End G11.
+End G12.
 
 
 (* the slice shapes of C13, for every node of every parsed rendering of the Cst fragment *)
